@@ -98,7 +98,9 @@ def run_shard(shard, ctx):
         for unit in shard['units']:
             cfg = unit['cfg']
             name = gen.cfg_str(cfg)
-            alg = gen.make_algebra(cfg)
+            alg = gen.make_or_skip(ctx, cfg)
+            if alg is None:
+                continue
             regs = regfuncs(alg)
             ctx.count('algebras')
             for op in ALL:
